@@ -188,8 +188,7 @@ def run(ctx):
                     if any(d.get("code") in disabled for d in got):
                         ctx.violation({"kind": "disabled-code-published", "variant": label}, {"got": gotn}, files=files)
                     ctx.nontrivial((label, op, tuple(sorted({d.get("code") for d in got}))))
-                if si < 2:
-                    ctx.sample({"variant": label, "toml": toml, "history": hist})
+                ctx.sample({"variant": label, "toml": toml, "history": hist})
                 ctx.count("sessions")
             finally:
                 un = srv.unanswered()
